@@ -147,6 +147,22 @@ def check(ctx):
     ctx.rule("R9", "the layout served is the loaded pair's: on both structure classes, built by their own constructors, build_accessors(config, log) leaves exactly the items of that pair - also when another pair was loaded before (an in-place update keeps items of the earlier table at positions that belong to other items of the table now in force) (C12.R8's structure model borrowed)")
     from .c12 import structure_tables as _st18
     _st18(ctx.borrowed("R9", "C12"), repo, "R8")
+    ctx.rule("R10", "the labels in force are the published ones: on the facades built for the richest shipped (config, log) pair of every platform, the label list of every item the construction looked at is the same after every read-only member of every automation device (properties - a pump's `modes` included -, __str__, __repr__) has been read: a user of an item never edits the list the table handed to it (the item's enumeration would change under every later read and write)")
+    from ..buildmodel import labels_after_reads as _lar
+    n10_, w10_ = 0, 0
+    for (plat_, cs_, ls_, fcls_), (r_, extra_) in sorted(_lar(repo, T).items()):
+        if r_ is not None or extra_ is None:
+            continue      # a pair whose facade cannot be built is C11's finding
+        changed_, nw_ = extra_
+        n10_ += 1
+        w10_ += nw_
+        ctx.ob("R10", f"{fcls_}::{plat_}::labels-unchanged-by-reads", not changed_,
+               f"{fcls_} built on ({cs_}, {ls_}): after reading the devices' members {len(changed_)} item(s) have other labels than the table published, e.g. "
+               + "; ".join(f"{k}: {b} -> {a}" for k, b, a in changed_[:2]) + " - the live layout no longer is the published one: every later read and write of the item uses the edited enumeration",
+               repo.method(fcls_, "all_automation_devices").loc, sample={"rule": "R10", "facade": fcls_, "platform": plat_, "items_watched": nw_} if plat_.startswith("inyt") else None)
+    ctx.count("R10:facades read", n10_)
+    ctx.floor("R10", "facades whose devices were read", n10_, 10)
+    ctx.floor("R10", "label lists watched", w10_, 200)
     from ..modlookup import lookup_obligations
     n_lk = 0
     for q in ("GeckoAsyncSpa._connect", "GeckoSpa._on_config_received"):
